@@ -105,16 +105,20 @@ class Observer(Peer):
 
     def wants_variant(self, dg, var):
         d = dg.data
-        return len(d) > 4 and d[1] >= 64 and (d[0] >> 4) & 3 in (rc.CON, rc.NON) and (var != "silent" or (d[0] >> 4) & 3 == rc.CON)
+        return len(d) > 4 and d[1] >= 64 and (d[0] >> 4) & 3 in (rc.CON, rc.NON) and (var not in ("silent", "rstchg") or (d[0] >> 4) & 3 == rc.CON)
 
     def on_message(self, src, msg, dg):
         mtype, code, mid, token, options, payload = msg
         if code < 64:
             return
         self.got.append(msg)
-        react = self.variant or "ack"
-        if react == "rst":
+        react = self.variant or ("silent" if getattr(self, "deaf", False) else "ack")
+        if react in ("rst", "rstchg"):
             self.send(src, (rc.RST, 0, mid, b"", [], b""))
+            if react == "rstchg":
+                # ... and the resource's state changes in the very loop pass in which the server reads this Reset
+                rst = rc.encode((rc.RST, 0, mid, b"", [], b""))
+                self.world.same_pass.append((lambda dg, rst=rst, me=self.addr: dg.src == me and dg.data == rst, self.on_rstchg))
         elif react == "ack" and mtype == rc.CON:
             self.send(src, (rc.ACK, 0, mid, b"", [], b""))
 
@@ -134,7 +138,7 @@ class Reg:
 class ObsScenario(NetScenario):
     names = {SRV: "srv", O1: "O1", O2: "O2"}
     menu = ("drop", "dup", "early")
-    deliver_variants = {"O1": ["rst", "silent"], "O2": ["rst"]}
+    deliver_variants = {"O1": ["rst", "silent", "rstchg"], "O2": ["rst"]}
     horizon = 420.0
     max_steps = 140
 
@@ -153,6 +157,7 @@ class ObsScenario(NetScenario):
         st.srv = w.add_context("srv", *SRV, site=site)
         st.o1 = w.add_peer(Observer("O1", *O1, token=b"\xa1"))
         st.o2 = w.add_peer(Observer("O2", *O2, token=b"\xa1" if self.name == "S-OBS-sametoken" else b"\xb2"))
+        st.o1.on_rstchg = lambda: self.change(st)
         st.regs = []
         st.reported = set()
         st.acked = set()
@@ -163,13 +168,18 @@ class ObsScenario(NetScenario):
         n = self.name
         if n == "S-OBS-slowrender":
             st.res.render_delay = 0.1
-        if n in ("S-OBS-con", "S-OBS-two", "S-OBS-slowrender", "S-OBS-twotokens", "S-OBS-sametoken", "S-OBS-midcollide"):
+        if n == "S-OBS-twotokens-deaf":
+            # an observer with two registrations that never acknowledges a notification: the first notification is given up after
+            # MAX_TRANSMIT_WAIT - and a registration that is still alive afterwards still gets the latest state
+            st.o1.deaf = True
+            st.disturbed = True      # (what is sent to an observer that never acknowledges anything waits, and goes down with the give-up)
+        if n in ("S-OBS-con", "S-OBS-two", "S-OBS-slowrender", "S-OBS-twotokens", "S-OBS-twotokens-deaf", "S-OBS-sametoken", "S-OBS-midcollide"):
             st.script.append(("register O1 CON", lambda st: self.register(st, st.o1, True)))
-        if n == "S-OBS-twotokens":
+        if n in ("S-OBS-twotokens", "S-OBS-twotokens-deaf"):
             st.script.append(("register O1 CON token2", lambda st: self.register(st, st.o1, True, b"\xa2")))
         if n in ("S-OBS-non", "S-OBS-two", "S-OBS-sametoken"):
             st.script.append(("register O2 NON", lambda st: self.register(st, st.o2, False)))
-        for i in range(3 if n not in ("S-OBS-two", "S-OBS-twotokens", "S-OBS-sametoken") else 2):
+        for i in range(3 if n not in ("S-OBS-two", "S-OBS-twotokens", "S-OBS-twotokens-deaf", "S-OBS-sametoken") else 2):
             st.script.append(("change", lambda st: self.change(st)))
 
     def nextmid(self, st, obs):
@@ -423,7 +433,7 @@ class ObsScenario(NetScenario):
 
 
 def run(tier, seed, jobs):
-    names = ["S-OBS-con", "S-OBS-non", "S-OBS-two", "S-OBS-slowrender", "S-OBS-twotokens", "S-OBS-sametoken", "S-OBS-midcollide"]
+    names = ["S-OBS-con", "S-OBS-non", "S-OBS-two", "S-OBS-slowrender", "S-OBS-twotokens", "S-OBS-sametoken", "S-OBS-midcollide", "S-OBS-twotokens-deaf"]
     K = 1 if tier == "quick" else 2
     res = explore_schedules([ObsScenario(n, K) for n in names], K, jobs)
     if tier == "quick":
